@@ -30,14 +30,17 @@ INITIAL = [
     'a{x:1}',
     '',
     # 4: import first
-    '@import url(k.css); @media tv { @page :left { @top-right { top: 1px } } } c, d { e: f g }',
+    # 4: import first, two prefixed namespaces that are both in use (an @namespace re-declaring p or q is refused)
+    '@import url(k.css); @namespace p "u1"; @namespace q "u2"; @media tv { p|m {n:o} @page :left { @top-right { top: 1px } } } '
+    'c, d { e: f g } q|h {i:j}',
 ]
 IMPORTED = b'@media print { @media tv { i{j:k} } } l{m:n} @page { @top-left { o: p } }'
 
 RULE_TEXTS = ['c{z:3}', '@media tv { d{w:4} }', '@media screen { @media print { e{v:5} @media tv { g{h:6} } } }',
               '@page :left { margin: 1cm; @top-left { content: "t" } }', '/* k */', '@font-face { font-family: f }',
               '@import "i.css" screen;', '@namespace p "u2";', '@charset "ascii";', 'bad {', '@top-right { color: red }',
-              '@unknown x;', 'h, i { j: k(l(1)) }', '@page { @top-left { a: b } @top-left { c: d } }']
+              '@unknown x;', 'h, i { j: k(l(1)) }', '@page { @top-left { a: b } @top-left { c: d } }', '@namespace q "u1";',
+              '@namespace r "u1";']
 STYLE_TEXTS = ['color: red', 'margin: 0 calc(1px + 2px) f(g(1), 2); color: rgb(1,2,3) !important', '', 'x:',
                'top: 0; $bad; left: 1px', 'a: b; a: c']
 SELECTOR_TEXTS = ['a', 'a, b > c', 'h1:hover, .k', ',', 'q|b', 'b > c']
@@ -61,7 +64,7 @@ CSSTEXT = {
               'a{x:1} @page { @top-left { y:2 } } }junk{'],
 }
 NEW_KINDS = ['stylerule', 'media', 'page', 'margin', 'fontface', 'comment', 'decl', 'prop', 'sellist', 'selector',
-             'medialist', 'import']
+             'medialist', 'import', 'namespace']
 
 K = {'sheet': 0, 'rule': 1, 'decl': 2, 'prop': 3, 'pv': 4, 'value': 5, 'sellist': 6, 'selector': 7, 'medialist': 8}
 RTOP, RSUB, RSTYLE, RSELLIST, RMEDIA, RIMPORTED, RITEM, RPV = range(8)
@@ -104,7 +107,8 @@ def cat_of(o):
     """finer category used to select targets"""
     _, css, st = _mods()
     for name, cls in (('stylerule', css.CSSStyleRule), ('media', css.CSSMediaRule), ('page', css.CSSPageRule),
-                      ('margin', css.MarginRule), ('fontface', css.CSSFontFaceRule), ('import', css.CSSImportRule)):
+                      ('margin', css.MarginRule), ('fontface', css.CSSFontFaceRule), ('import', css.CSSImportRule),
+                      ('namespace', css.CSSNamespaceRule)):
         if isinstance(o, cls):
             return name
     return kind_of(o)
@@ -350,8 +354,8 @@ class World:
 
 
 CONTAINER = ('sheet', 'media', 'page')
-POOLABLE = ('stylerule', 'media', 'page', 'margin', 'fontface', 'import', 'rule', 'decl', 'prop', 'sellist', 'selector',
-            'medialist')
+POOLABLE = ('stylerule', 'media', 'page', 'margin', 'fontface', 'import', 'rule', 'namespace', 'decl', 'prop', 'sellist',
+            'selector', 'medialist')
 RULECATS = ('stylerule', 'media', 'page', 'margin', 'fontface', 'import', 'rule')
 STYLED = ('stylerule', 'page', 'fontface', 'margin')
 # op name -> (target categories, generator of the remaining arguments)
@@ -406,6 +410,9 @@ def make_new(what, k):
         return css.CSSComment('/* c */')
     if what == 'import':
         return css.CSSImportRule(href='p.css', mediaText='print')
+    if what == 'namespace':
+        prefix, uri = [('p', 'u2'), ('q', 'u1'), ('', 'u3'), ('p', 'u1'), ('r', 'u2'), ('q', 'u3')][k % 6]
+        return css.CSSNamespaceRule(namespaceURI=uri, prefix=prefix)
     if what == 'decl':
         return css.CSSStyleDeclaration(cssText=STYLE_TEXTS[k % 2])
     if what == 'prop':
@@ -445,18 +452,27 @@ def apply_op(w, d, step):
                 w.pool.append(x)
     try:
         if name == 'insert_text':
+            if d['text'].startswith('@namespace') and cat_of(t) == 'sheet':
+                deleted_from = w.mid(t)     # _cleanNamespaces removes superseded @namespace rules with deleteRule
             if d['idx'] is None:
                 t.add(d['text'])
             else:
                 t.insertRule(d['text'], d['idx'] if d['idx'] >= 90 else min(d['idx'], len(t.cssRules)))
         elif name == 'insert_obj':
-            allowed = ('stylerule', 'media', 'page', 'fontface', 'rule', 'import') if cat_of(t) != 'page' else ('margin',)
-            src = w.free(allowed, d['src'], 'margin' if cat_of(t) == 'page' else ['stylerule', 'media', 'page', 'fontface', 'comment'][d['src'] % 5])
+            allowed = ('stylerule', 'media', 'page', 'fontface', 'rule', 'import', 'namespace') if cat_of(t) != 'page' else ('margin',)
+            src = w.free(allowed, d['src'], 'margin' if cat_of(t) == 'page' else
+                         ['stylerule', 'media', 'page', 'fontface', 'comment', 'namespace'][d['src'] % 6])
             if src is None or src is t or any(x is t for x in walk(src)):
                 return False
-            if isinstance(src, css.CSSNamespaceRule) or (isinstance(src, css.CSSCharsetRule) and d['idx'] is not None):
+            if isinstance(src, css.CSSCharsetRule) and d['idx'] is not None:
                 return False    # whether the post settings are reached depends on the hierarchy checks (C07), not modelled
-            if d['idx'] is None:
+            if isinstance(src, css.CSSNamespaceRule) and cat_of(t) == 'sheet':
+                # add(): no hierarchy error is possible, so the call either inserts (and _cleanNamespaces may remove
+                # other @namespace rules with deleteRule), or ends in the post settings without inserting, or is
+                # REFUSED by _cleanNamespaces (NoModificationAllowedErr: the handler restores the rule list)
+                deleted_from = w.mid(t)
+                t.add(src)
+            elif d['idx'] is None:
                 t.add(src)
             else:
                 t.insertRule(src, d['idx'] if d['idx'] >= 90 else min(d['idx'], len(t.cssRules)))
@@ -557,7 +573,7 @@ def apply_op(w, d, step):
     except Exception as e:  # the API reports rejected input by raising xml.dom exceptions (and a few others)
         w.notes.append("%s raised %s" % (name, type(e).__name__))
     if added_obj is not None and cat_of(t) == 'sheet' and all(x is not added_obj for x in t.cssRules) and \
-            isinstance(added_obj, css.CSSCharsetRule):
+            isinstance(added_obj, (css.CSSCharsetRule, css.CSSNamespaceRule)):
         # insertRule returned normally without inserting: an @charset merged into the existing one or a duplicate
         # @namespace; the post settings (cssstylesheet.py) are still executed on the rule
         w.register(added_obj)
@@ -657,6 +673,16 @@ def gen_cases(ctx, thorough):
     for n in range(0, depth + 1):
         for seq in itertools.product(al, repeat=n):
             cases.append((1, list(seq)))
+    # @namespace rules on the sheet with two bound prefixes in use: accepted, merged, superseding and REFUSED insertions
+    ns = [{'op': 'new', 't': 0, 'what': 'namespace', 'k': k} for k in range(6)]
+    ns += [{'op': 'insert_obj', 't': 0, 'src': s, 'idx': None, 'rx': rx} for s in (1, 2) for rx in (False, True)]
+    ns += [{'op': 'insert_text', 't': 0, 'text': x, 'idx': i, 'rx': rx}
+           for x, i in (('@namespace q "u1";', None), ('@namespace p "u2";', 1), ('@namespace r "u1";', None)) for rx in (False, True)]
+    ns += [{'op': 'delete', 't': 0, 'idx': 1, 'byobj': False}, {'op': 'delete', 't': 0, 'idx': 3, 'byobj': True},
+           {'op': 'sheet_csstext', 't': 0, 'k': 2, 'rx': True}]
+    for n in range(1, depth + 1):
+        for seq in itertools.product(ns, repeat=n):
+            cases.append((4, list(seq)))
     if thorough:
         sub = [a for a in al if a['op'] in ('insert_text', 'delete', 'insert_obj', 'set_cssrules', 'set_csstext', 'new')
                and a.get('what', 'media') in ('media', 'stylerule')]
